@@ -8,7 +8,7 @@ case "$ID" in
   C03|C09) TARGET=fz_c03c09; RUNS=${FUZZ_RUNS:-30000}; MAXLEN=512 ;;
   C10) TARGET=fz_c10; RUNS=${FUZZ_RUNS:-30000}; MAXLEN=512 ;;
   C08) TARGET=fz_c08; RUNS=${FUZZ_RUNS:-1500}; MAXLEN=256 ;;
-  C18) TARGET=fz_c18; RUNS=${FUZZ_RUNS:-20000}; MAXLEN=512 ;;
+  C18) TARGET=fz_c18; RUNS=${FUZZ_RUNS:-8000}; MAXLEN=512 ;;
   *) exit 0 ;;
 esac
 OUT=/verif/.build/fuzz-$ID.json
